@@ -1,4 +1,4 @@
-CONSTANTS N = 5  W = 1  MaxAdd = 2  MaxLock = 1  AllowDup = FALSE
+CONSTANTS N = 5  W = 1  MaxAdd = 2  MaxLock = 0  AllowDup = FALSE
           MeldInterior = TRUE  SkipLocked = TRUE  KeepOnLock = TRUE
 SPECIFICATION RSpec
 CHECK_DEADLOCK FALSE
